@@ -111,7 +111,11 @@ def main():
 
     # ---- search stage
     searched = None
-    if (not proof_ok or disagreements) and not failures:
+    # (failures that are instances of listed findings do not count: with them in the way the search would never run for a
+    # property that has listed findings)
+    _kf0 = [k for k in vlib.load_known_findings() if k.get('property') == prop and k.get('status') == 'open']
+    _new0 = [fl for fl in failures if not (hasattr(mod, 'classify') and mod.classify(fl, _kf0) is not None)]
+    if (not proof_ok or disagreements) and not _new0:
         # behind the disagreeing inputs: the by-construction shapes of tools/gen/shapes.py (inputs outside the generators'
         # grammars; every one passes every search oracle on the unchanged tree, tools/misc/validate_shapes.py)
         try:
